@@ -14,7 +14,7 @@ OrderedOutput == m.orderOk
 \* the Blocks partition the consumed input, in order, each at most block_size long
 BlocksPartitionInput ==
     c.threadErr # "OK" \/
-    /\ \A b \in 1..m.nblk : m.blkLen[b] <= BS /\ m.blkStart[b] = Sum(SubSeq(m.blkLen, 1, b - 1))
+    /\ \A b \in 1..m.nblk : m.blkLen[b] <= m.bs /\ m.blkStart[b] = Sum(SubSeq(m.blkLen, 1, b - 1))
     /\ \A b \in 1..Len(m.index) : m.index[b] = m.blkLen[b] /\ m.blkLen[b] > 0
     /\ Sum(m.blkLen) = Consumed
 
@@ -58,5 +58,7 @@ UpdateRefusedMidBlock == (m.pc = "out" /\ m.lastUpdateRet = "OK") => TRUE
 \* every idle, sleeping worker can be found again: it is on the stack of free threads
 NoLostWorker == \A w \in W : (t[w].pc = "park_top" /\ t[w].state = "IDLE" /\ m.thr # w)
                                   => (\E i \in 1..Len(c.free) : c.free[i] = w)
+\* the main thread never copies more into thr->in than was allocated for it
+InBufFits == \A w \in W : t[w].inSize <= t[w].cap
 EndJoinsAll == m.pc = "freed" => \A w \in W : t[w].pc \in {"none", "exited"}
 =============================================================================
